@@ -58,4 +58,9 @@ package comments
 //@ func ParseDocs(c)
 //@   props C16 C19
 //@   propagates
+// C19: every file of every loaded package is scanned, and every general declaration in it is looked at (a converter
+// is a converter wherever its declaration stands: no file or declaration is skipped)
+//@   loop@C19 1 invariant idx > 0 ==> reached("loop#2")
+//@   loop@C19 2 invariant idx > 0 ==> reached("loop#3")
+//@   loop@C19 3 invariant idx > 0 && dynIs[*ast.GenDecl](file.Decls[idx-1]) ==> reached("parseGenDecl#1")
 //@   at@C16 call packages.Load#1 assert arg0.Dir == c.WorkingDir && ite(c.BuildTags != "", len(arg0.BuildFlags) == 2 && arg0.BuildFlags[0] == "-tags" && arg0.BuildFlags[1] == c.BuildTags, len(arg0.BuildFlags) == 0)
